@@ -25,7 +25,7 @@ Req(ev, leak) ==
     /\ ev.e = "req" /\ on
     /\ LET admitted == inflight + 1 <= T IN
        IF ~admitted
-       THEN /\ last' = [called |-> 0, result |-> IF fb THEN "fallback" ELSE "err"]
+       THEN /\ last' = [called |-> 0, result |-> IF ev.drop THEN "dropped" ELSE IF fb THEN "fallback" ELSE "err"]
             /\ inflight' = inflight /\ ~leak
        ELSE IF ev.drop
        THEN /\ last' = [called |-> 1, result |-> "dropped"]
